@@ -30,7 +30,7 @@ META = {
             "in-process HTTP (falcon test client); subprocess/unix/tcp transports share the pipe code path and are not run.",
 }
 
-WATCHDOG_S = 20.0
+WATCHDOG_S = 10.0
 
 
 # ------------------------------------------------------------------------------------------ dynamic echo service
@@ -83,6 +83,7 @@ class PipeLink:
     def __init__(self, proto, impl) -> None:
         self.proto, self.impl = proto, impl
         self.rebuilds = -1
+        self.hangs = 0
         self._open()
 
     def _open(self) -> None:
@@ -118,27 +119,42 @@ class PipeLink:
             except BaseException as e:  # noqa: BLE001
                 q_out.put(("err", e))
 
+    LOCAL_ERRORS = (OverflowError, TypeError, ValueError, UnicodeError, KeyError, AttributeError)
+
     def call(self, name: str, kwargs: dict):
+        import pyarrow as pa
+
         self.q_in.put((name, kwargs))
         try:
             res = self.q_out.get(timeout=WATCHDOG_S)
         except queue.Empty:
-            self._abandon()
+            # the client is blocked reading a response that will never come.  Nothing is closed from here (closing a
+            # pipe object another thread is blocked on would block this thread too); the stuck daemon threads are leaked.
+            self.hangs += 1
+            self._open()
             return ("hang", None)
-        if res[0] == "err" and not self.thread.is_alive():
-            self._abandon()       # the serve loop died on this call: later calls would block forever
-            return ("err_server_dead", res[1])
+        if res[0] == "err":
+            e = res[1]
+            from vgi_rpc.rpc import RpcError
+
+            # RpcError = the server answered (or the client refused to send): the serve loop is alive.  Anything else that
+            # is not a plain local conversion error (bare StopIteration, EOF, OSError ...) is how a dying serve loop looks
+            # from the client: give it time to finish dying before asking whether it is alive.
+            local = isinstance(e, (RpcError, pa.ArrowException, *self.LOCAL_ERRORS))
+            if not local:
+                self.thread.join(timeout=1.0)
+            if not self.thread.is_alive():
+                self._abandon()       # the serve loop died on this call: later calls would block forever
+                return ("err_server_dead", e)
         return res
 
     def _abandon(self) -> None:
-        try:
-            self.ct.close()
-        except Exception:  # noqa: BLE001
-            pass
-        try:
-            self.st.close()
-        except Exception:  # noqa: BLE001
-            pass
+        self.q_in.put(None)           # the worker is idle here (its result was consumed)
+        for t in (self.ct, self.st):
+            try:
+                t.close()
+            except Exception:  # noqa: BLE001
+                pass
         self._open()
 
     def close(self) -> None:
@@ -201,8 +217,10 @@ def run(ctx: Ctx) -> None:
                "and naive<->aware datetime coercion are not in the value space",
                "Decimal and aware datetimes are compared with Python == (numeric / instant equality)",
                "NaN and -0.0 are not placed inside frozensets (hash-based equality cannot observe them)",
-               "containers hold (optional) scalars at the RPC level, as the statement says; below a dataclass the dataclass "
-               "grammar applies (C03's known set/map conversion defect is matched by the same family key)")
+               "containers hold (optional) scalars at the RPC level, as the statement says; Enum inside an RPC-level container "
+               "(list[Enum], dict[Enum, V], dict[K, Enum]) is treated as outside 'lists, maps and sets of scalars' and is not "
+               "generated (observed by hand: such calls raise ArrowTypeError on the client, never a changed value); below a "
+               "dataclass the dataclass grammar applies (C03's known set/map conversion defect is matched by the same family key)")
     scalars = [x for x in ALL_LEAVES if x not in ("schema", "batch")]
     runs = [("depth1", {"Mode": "rpc", "MaxDepth": 1, "Ctors": sset(ALL_CTORS), "Leaves": sset(ALL_LEAVES),
                         "SigLeaves": sset(["int", "u64", "f32", "str", "enum", "dec"] if quick else scalars[:-2]), "Variants": sset(["plain"])}),
@@ -312,6 +330,7 @@ def run(ctx: Ctx) -> None:
         http.close()
     ctx.extra["outcomes"] = stats
     ctx.extra["pipe_connections_rebuilt"] = pipe.rebuilds
+    ctx.extra["pipe_calls_hung"] = pipe.hangs
     ctx.extra["lossy_float32_narrowing_observed"] = narrowing_seen
     drj = {"/".join(t): e for t, e in def_err.items() if e}
     if drj:
